@@ -323,6 +323,11 @@ def case_strategy():
             "tag_life": st.sampled_from([3, 12, 30, 1000, 1000]),
             "peer": st.sampled_from([None, None, "initiator", "target"]),
             "peer_time": st.sampled_from([0.3, 1.0, 3.0]),
+            # what the application does with the link it is handed in the
+            # llcp on-connect: nothing, or data link connections that are
+            # still open (a thread waiting in recv) when the link ends
+            "app": st.sampled_from([None, None, "client", "server",
+                                    "both"]),
             "reader_visits": st.sampled_from([0, 1, 1, 2]),
             "reader_cmds": st.integers(0, 3),
             "fault": st.one_of(st.none(), st.none(), st.tuples(
@@ -330,6 +335,30 @@ def case_strategy():
                 st.integers(1, 25)))}),
         "terminate_at": st.integers(1, 14),
         "seed": st.integers(0, 255)})
+
+
+def llcp_apps_case():
+    """peer to peer sessions in which the application works on data link
+    connections that are still open when the link ends"""
+    def shape(c):
+        c = dict(c, rdwr=None, card=None, nt="app-connection")
+        c["llcp"] = dict(c["llcp"], startup=c["llcp"]["startup"] if
+                         c["llcp"]["startup"] in ("ok", "default") else "ok",
+                         connect=True)
+        return c
+    return st.fixed_dictionaries({
+        "rdwr": st.none(), "card": st.none(), "llcp": kind_opts("llcp"),
+        "env": st.fixed_dictionaries({
+            "tag": st.none(), "tag_life": st.just(0),
+            "peer": st.sampled_from(["initiator", "target"]),
+            "peer_time": st.sampled_from([0.3, 1.0, 3.0, 10.0]),
+            "reader_visits": st.just(0), "reader_cmds": st.just(0),
+            "app": st.sampled_from(["client", "server", "both"]),
+            "fault": st.one_of(st.none(), st.none(), st.none(), st.tuples(
+                st.sampled_from(["ioerror", "unsupported"]),
+                st.integers(1, 60)))}),
+        "terminate_at": st.one_of(st.integers(1, 14), st.integers(10, 80)),
+        "seed": st.integers(0, 255)}).map(shape)
 
 
 def enum_tagtypes(tier, seed):
@@ -373,6 +402,56 @@ def enum_tagtypes(tier, seed):
                             "terminate_at": term, "seed": 0}
 
 
+APP_SVC = "urn:nfc:sn:verif18"
+PEER_SVC = "urn:nfc:sn:verif18p"
+
+
+def start_apps(llc, what, trace, peer=False):
+    """application threads on an activated link (started from on-connect):
+    a client that connects to the other side's service, sends and waits for
+    data; a server that accepts and reads.  They end when the link does."""
+    import nfc.llcp
+    sched = vsched.current()
+    mine, theirs = (PEER_SVC, APP_SVC) if peer else (APP_SVC, PEER_SVC)
+
+    def guarded(fn, name):
+        def body():
+            try:
+                fn()
+            except nfc.llcp.Error:
+                pass
+            except (vsched.Abort, vsched.StepBudget):
+                raise
+            except BaseException as e:
+                trace.append(("app-exc", name, e))
+            if not peer:
+                trace.append(("app-done", name))
+        return body
+
+    def client():
+        k = nfc.llcp.Socket(llc, nfc.llcp.DATA_LINK_CONNECTION)
+        k.connect(theirs)
+        if not peer:
+            trace.append(("app-connected", "client"))
+        k.send(b"hello")
+        while k.recv() is not None:
+            pass
+
+    def server():
+        ls = nfc.llcp.Socket(llc, nfc.llcp.DATA_LINK_CONNECTION)
+        ls.bind(mine)
+        ls.listen(1)
+        c = ls.accept()
+        if not peer:
+            trace.append(("app-connected", "server"))
+        while c.recv() is not None:
+            pass
+    if what in ("server", "both"):
+        sched.spawn(guarded(server, "server"), "app-server")
+    if what in ("client", "both"):
+        sched.spawn(guarded(client, "client"), "app-client")
+
+
 def build_options(case, trace, objects):
     """the keyword arguments of connect() for a case, with recording
     callbacks"""
@@ -380,6 +459,9 @@ def build_options(case, trace, objects):
         def f(arg):
             trace.append(("cb", kind, name, id(arg), type(arg).__name__))
             objects[id(arg)] = arg
+            if kind == "llcp" and name == "connect" and spec and \
+                    spec != "default" and case["env"].get("app"):
+                start_apps(arg, case["env"]["app"], trace)
             if name == "startup":
                 if spec == "ok":
                     if kind == "card":
@@ -462,7 +544,13 @@ def run_connect(case, ctx):
     def peer_thread():
         t0 = s.now
         try:
-            peer.connect(llcp={"role": case["env"]["peer"], "lto": 100},
+            popts = {"role": case["env"]["peer"], "lto": 100}
+            if case["env"].get("app"):
+                def peer_apps(llc):
+                    start_apps(llc, "both", [], peer=True)
+                    return True
+                popts["on-connect"] = peer_apps
+            peer.connect(llcp=popts,
                          terminate=lambda: s.now - t0 > case["env"]
                          ["peer_time"])
         except (vsched.Abort, vsched.StepBudget):
@@ -505,6 +593,17 @@ def judge(case, ctx, trace, out, done, blocked, tcalls, objects,
                             "after a device IOError inside the LLCP run loop")
         raise unexpected(e, "connect-raises")
     ret = out["ret"]
+    for t in trace:
+        if t[0] == "app-exc":
+            raise unexpected(t[2], "application-thread-raises", detail=t[1])
+    apps = [t[1] for t in trace if t[0] == "app-done"]
+    if apps:
+        ctx.label("llcp-apps-ended:%d" % len(apps))
+    nconn = len([t for t in trace if t[0] == "app-connected"])
+    if nconn:
+        ctx.label("llcp-app-connections:%d" % nconn)
+        if case.get("nt") == "app-connection":
+            ctx.nontrivial()
     cbs = [t for t in trace if t[0] == "cb"]
     # 1. startups first
     first_drv = next((i for i, t in enumerate(trace) if t[0] == "drv"), None)
@@ -1649,6 +1748,19 @@ LEGS = [
              "call; non-trivial = >= 2 option groups survive start-up, a "
              "callback returned a false value, or terminate fired after an "
              "activation."),
+    Leg("llcp-apps", run=run_connect, gen=lambda tier: llcp_apps_case(),
+        quick=400, thorough=8000, shards_quick=4, shards_thorough=16,
+        nt_floor=0.2,
+        rule="connect(llcp=...) against a peer device; the on-connect "
+             "callback returns True and starts application threads on the "
+             "link (a client connecting to the peer's service by name, a "
+             "server accepting, or both; the peer runs the counterparts), "
+             "each left waiting in recv() on its data link connection; the "
+             "link ends by terminate() (at the 1st..80th call), by the peer "
+             "leaving after 0.3-10 s or by a device fault.  Same judge as "
+             "leg connect (connect() returns, on-release once, return "
+             "value).  Non-trivial = at least one of the application's data "
+             "link connections was established when the link ended."),
     Leg("rounds", run=run_rounds, gen=lambda tier: rounds_case(), quick=240,
         thorough=6000, shards_quick=5, shards_thorough=16, nt_floor=0.2,
         rule="one connect() call over a scripted field in virtual time: 2-5 "
